@@ -28,6 +28,7 @@ Inductive rir :=
 | TableMapRows (c : rir) (row : ir)
 | TableMapGlobals (c : rir) (g : ir)
 | TableFilter (c : rir) (p : ir)
+| TableOrderBy (c : rir) (sf : list (N * bool))              (* sort fields: (name, ascending) *)
 | TableLeftJoinRightDistinct (l r : rir) (root : N)
 | TableIntervalJoin (l r : rir) (root : N) (product : bool)
 | MatrixRowsTable (c : rir) | MatrixColsTable (c : rir) | MatrixEntriesTable (c : rir)
@@ -64,7 +65,21 @@ Definition mcol_env (gl col : fields) : tenv := [(SA, TStruct col); (GLOBAL, TSt
 Definition entry_env (gl col row entry : fields) : tenv :=
   [(GE, TStruct entry); (VA, TStruct row); (SA, TStruct col); (GLOBAL, TStruct gl)].
 
-(** *** the engine's typing (strict) *)
+(** *** the engine's typing (strict).  Every rule is transcribed from the Scala side (hail/hail/src/is/hail/...), not from the
+    Python [_compute_type]:
+      TableRange expr/ir/TableIR.scala:2174 (typ :2187)      TableKeyBy :2106 (typ :2114) + TypeCheck.scala:632
+      TableMapRows :2418 (typ :2421) + TypeCheck:661         TableMapGlobals :2431 (typ :2434)
+      TableFilter :2194 (typ = child.typ)                    TableOrderBy :2579 (typ :2593: key = FastSeq())
+      TableLeftJoinRightDistinct :2366 (structInsert) + TypeCheck:641 (isPrefixOf, types/virtual/TBaseStruct.scala:71)
+      TableIntervalJoin :2315 (typ :2323-2326, TStruct.appendKey types/virtual/TStruct.scala:230; no TypeCheck case: the key
+        requirement is read off lowering/LowerTableIR.scala:1963-)
+      MatrixRowsTable :2474 / MatrixColsTable :2487 / MatrixEntriesTable :2498 -> types/virtual/MatrixType.scala:107-117
+      MatrixRead of MatrixRangeReader expr/ir/MatrixIR.scala:404 (fullMatrixTypeWithoutUIDs :413-419)
+      MatrixMapRows MatrixIR.scala:696, MatrixMapCols :712, MatrixMapEntries :665, MatrixMapGlobals :730, MatrixKeyRowsBy :680
+        + TypeCheck:708, all + the MatrixType constructor assertions (keys within their struct, MatrixType.scala:78-96)
+      MatrixAnnotateRowsTable :782 (appendKey) + TypeCheck:700-707
+    (TableJoin TableIR.scala:2267 + TypeCheck:621 and MatrixAnnotateColsTable MatrixIR.scala:760 + TypeCheck:698 +
+    LowerMatrixIR.scala:236-255 are in the Python checker c36_tlang.strict_rel only.) *)
 Fixpoint strict_type (x : rir) : option rty :=
   match x with
   | TableRange => Some (RT (TT [] [(IDX, TI32)] [IDX]))
@@ -91,6 +106,12 @@ Fixpoint strict_type (x : rir) : option rty :=
   | TableFilter c p =>
       match strict_type c with
       | Some (RT (TT gl row key)) => match ir_type (row_env gl row) p with Some TBool => Some (RT (TT gl row key)) | _ => None end
+      | _ => None
+      end
+  | TableOrderBy c sf =>                    (* TableIR.scala:2593  lazy val typ = child.typ.copy(key = FastSeq()): ALWAYS unkeyed
+                                               (isAlreadyOrdered, :2582, only avoids a shuffle); the sort fields are row fields *)
+      match strict_type c with
+      | Some (RT (TT gl row _)) => if subset (map fst sf) (names row) then Some (RT (TT gl row [])) else None
       | _ => None
       end
   | TableLeftJoinRightDistinct l r root =>  (* TypeCheck: right.keyType isPrefixOf left.keyType; row: structInsert(root -> right.valueType) *)
@@ -202,6 +223,7 @@ Inductive prog :=
 | PDrop (p : prog) (ks : list N)                           (* t.drop('a', ..) : row fields *)
 | PAnnotateGlobals (p : prog) (fs : list (N * fe))
 | PFilter (p : prog) (e : fe)
+| POrderBy (p : prog) (sf : list (N * bool))                (* t.order_by('a', hl.desc('b'), ..): row fields by name *)
 | PAnnotateIdx (p r : prog) (uid : N) (kfs : list (N * fe)) (am : bool) (fs : list (N * fe))
     (* t.annotate(f = e, ..) whose expressions use ONE lookup  r.index(k1, .., all_matches=am)  whose key expressions
        (paired with the names the front end generates for them) are not the key fields of t themselves; inside [fs] the
@@ -301,6 +323,12 @@ Fixpoint telab (p : prog) : option (rty * rir) :=
           | Some (TBool, xe) => Some (RT (TT gl row key), TableFilter x (Coalesce xe FalseIR))
           | _ => None
           end
+      | _ => None
+      end
+  | POrderBy p sf =>                         (* self[name] must be a row field; "This method unkeys the table" *)
+      match telab p with
+      | Some (RT (TT gl row _), x) =>
+          if subset (map fst sf) (names row) then Some (RT (TT gl row []), TableOrderBy x sf) else None
       | _ => None
       end
   | PAnnotateIdx p r uid kfs am fs =>
@@ -440,7 +468,7 @@ Definition emitted (p : prog) : option rir := option_map snd (telab p).
 Fixpoint simple_interval_keys (p : prog) : bool :=
   match p with
   | PRange | PMRange => true
-  | PKeyBy p _ | PAnnotate p _ | PSelect p _ | PDrop p _ | PAnnotateGlobals p _ | PFilter p _
+  | PKeyBy p _ | PAnnotate p _ | PSelect p _ | PDrop p _ | PAnnotateGlobals p _ | PFilter p _ | POrderBy p _
   | PRows p | PCols p | PEntries p
   | PMAnnotateRows p _ | PMAnnotateCols p _ | PMAnnotateEntries p _ | PMAnnotateGlobals p _
   | PMKeyRowsBy p _ | PMKeyColsBy p _ => simple_interval_keys p
